@@ -326,3 +326,42 @@ pub(crate) fn render_simple(items: &[ShowComp]) -> Result<String, std::fmt::Erro
     }
     Ok(res)
 }
+
+/// verification hook: one of the completion renderers applied to explicit candidates
+/// `(subst, pretty, group, help)`, shell operations and the typed word
+#[cfg(bpaf_verif)]
+#[doc(hidden)]
+#[must_use]
+pub fn verif_render_shell(
+    rev: usize,
+    items: &[(String, String, Option<String>, Option<String>)],
+    ops: &[ShellComp],
+    full_lit: &str,
+    app: &str,
+) -> String {
+    let extras = items
+        .iter()
+        .map(|i| crate::complete_gen::CompExtra {
+            depth: 0,
+            group: i.2.clone(),
+            help: i.3.clone(),
+        })
+        .collect::<Vec<_>>();
+    let shows = items
+        .iter()
+        .zip(extras.iter())
+        .map(|(i, extra)| ShowComp {
+            subst: i.0.clone(),
+            pretty: i.1.clone(),
+            extra,
+        })
+        .collect::<Vec<_>>();
+    match rev {
+        0 => render_test(&shows, ops, full_lit),
+        1 => render_simple(&shows),
+        7 => render_zsh(&shows, ops, full_lit),
+        8 => render_bash(&shows, ops, full_lit),
+        _ => render_fish(&shows, ops, full_lit, app),
+    }
+    .unwrap()
+}
